@@ -138,6 +138,29 @@ func (f *osFile) reopen() (errno experimentalsys.Errno) {
 	return 0
 }
 
+// checkSamePath returns ENOENT when f.path no longer names the open directory,
+// e.g. because it was renamed or removed (and possibly re-created). Entries
+// are read from the descriptor but their inodes and types are looked up by
+// path, so listing a moved directory would silently drop every entry or
+// report those of whatever is at the old path now.
+func (f *osFile) checkSamePath() experimentalsys.Errno {
+	if f.closed {
+		return experimentalsys.EBADF
+	}
+	fi1, err := os.Stat(f.path)
+	if err != nil {
+		return experimentalsys.UnwrapOSError(err)
+	}
+	fi2, err := f.file.Stat()
+	if err != nil {
+		return experimentalsys.UnwrapOSError(err)
+	}
+	if os.SameFile(fi1, fi2) {
+		return 0
+	}
+	return experimentalsys.ENOENT
+}
+
 func (f *osFile) checkSameFile(osf *os.File) experimentalsys.Errno {
 	fi1, err := f.file.Stat()
 	if err != nil {
@@ -242,6 +265,8 @@ func (f *osFile) Readdir(n int) (dirents []experimentalsys.Dirent, errno experim
 		if errno = adjustReaddirErr(f, f.closed, f.reopen()); errno != 0 {
 			return
 		}
+	} else if errno = f.checkSamePath(); errno != 0 {
+		return nil, adjustReaddirErr(f, f.closed, errno)
 	}
 
 	if dirents, errno = readdir(f.file, f.path, n); errno != 0 {
